@@ -371,8 +371,30 @@ def check_hz_sequence(ctx, case):
 CHECKS["hz_sequence"] = check_hz_sequence
 
 
+def check_hz_multiple(ctx, case):
+    """a frequency that is an exact whole multiple of the standard pitch (a harmonic of A-4): the nearest note, not always an A"""
+    import math
+    std, k = case
+    pos = 57 + 12 * math.log(k, 2)
+    cents = (pos - round(pos)) * 100
+    if abs(cents) > 40:
+        return ctx.note_case(False, ["hz-multiple:beyond-40-cents"])
+    r = ctx.ok("from_hertz", lambda: Note().from_hertz(std * k, std))
+    if not failed(r):
+        ctx.check(T.valid(r.name) and T.pitch(r.name, r.octave) == int(round(pos)), "hertz/multiple-of-standard-pitch",
+                  lambda: "%r x %d = %r Hz reads as %r-%r, expected pitch number %d" % (std, k, std * k, r.name, r.octave, int(round(pos))))
+    if std == 440:
+        r0 = ctx.ok("from_hertz", lambda: Note().from_hertz(440 * k))
+        ctx.check(failed(r0) or failed(r) or (r0.name, r0.octave) == (r.name, r.octave), "hertz/default-standard-pitch", "from_hertz(440*k)")
+    ctx.note_case(k & (k - 1) != 0, ["hz-multiple:%d" % k])
+
+
+CHECKS["hz_multiple"] = check_hz_multiple
+
+
 def sub_hz(ctx, shard, n):
     if shard == 0:
+        ctx.enumerate("hz_multiple", check_hz_multiple, [[s_, k] for s_ in (440, 415, 432, 442, 466, 440.0, 415.3) for k in range(1, 17)])
         # neighbouring semitones detuned towards and away from each other, read by one and the same Note object
         fixed = [[440, [[i, c1], [i + d, c2]]] for i in (12, 57, 60, 100) for d in (1, -1, 0, 2) for c1 in (-40, -30, 30, 40) for c2 in (-40, -30, 30, 40)]
         ctx.enumerate("hz_sequence", check_hz_sequence, fixed)
